@@ -12,7 +12,11 @@ fn arg(args: &[String], k: &str) -> Option<String> {
 }
 
 fn main() {
-    std::panic::set_hook(Box::new(|_| {}));
+    if std::env::var("WWH_PANIC").is_ok() {
+        std::panic::set_hook(Box::new(|i| eprintln!("panic: {i}")));
+    } else {
+        std::panic::set_hook(Box::new(|_| {}));
+    }
     let args: Vec<String> = std::env::args().collect();
     if args.len() < 2 {
         eprintln!("usage: wwharness <engine> [--seed N] [--cases N] [--replay ops] --ops F --obs F --report F");
